@@ -19,8 +19,21 @@ PROPS = {
             "native-endian channel id encoding is an uninterpreted bijection (either endianness)",
         ],
     },
+    "C17": {
+        "units": ["u2f"],
+        "kani_complete": [],
+        "kani_bounded_quick": [],
+        "kani_bounded_thorough": ["u2f_wf"],
+        "design_ref": "DESIGN.md section 5 / C17",
+        "not_covered": [
+            "U2fApi::register / authenticate (async_trait methods, p256 signing, iterator chains): that the "
+            "signatures verify and what their signing input is",
+            "response encoders (iterator chains): bounded Kani family K-U2F-ENC only (thorough tier)",
+            "key handles longer than 255 bytes (outside the property's quantifier)",
+        ],
+    },
     "C15": {
-        "units": ["hid"],
+        "units": ["hid", "u2f"],
         "kani_complete": [],
         "kani_bounded_quick": [],
         "kani_bounded_thorough": [],
